@@ -610,6 +610,38 @@ def gen_tables():
     e.defn("SERVER_IS_SEQUENTIAL", "bool", "false" if (threaded or spawns) else "true")
     e.defn("SERVER_CLASS", "str", coq_str(ctor[0].func.attr))
 
+    # ---- documented result codes (docs/protocol.md)
+    doc = open(os.path.join(env.REPO, "docs", "protocol.md")).read()
+    titles = {"Get version": P.VERSION_COMMAND, "Sign": P.SIGN_COMMAND,
+              "Get public key": P.GETPUBKEY_COMMAND, "Advance Blockchain": P.ADVANCE_BLOCKCHAIN_COMMAND,
+              "Reset Advance Blockchain": P.RESET_ADVANCE_BLOCKCHAIN_COMMAND,
+              "Get Blockchain State": P.BLOCKCHAIN_STATE_COMMAND,
+              "Update ancestor block": P.UPDATE_ANCESTOR_BLOCK_COMMAND,
+              "Get Blockchain Parameters": P.GET_BLOCKCHAIN_PARAMETERS,
+              "Signer heartbeat": P.SIGNER_HEARTBEAT, "UI heartbeat": P.UI_HEARTBEAT}
+    sections = re.split(r"^### ", doc, flags=re.M)[1:]
+    found = {}
+    generic = None
+    for sec in sections:
+        title = sec.split("\n", 1)[0].strip()
+        if title in titles:
+            m = re.search(r"This operation can return (.*?) and generic errors", sec, flags=re.S)
+            need(m is not None, "docs/protocol.md: no result-code sentence for '%s'" % title)
+            found[titles[title]] = [int(x) for x in re.findall(r"`(-?\d+)`", m.group(1))]
+        if title == "Error and success codes":
+            g = sec.split("Generic errors", 1)
+            need(len(g) == 2, "docs/protocol.md: no generic errors section")
+            generic = [int(x) for x in re.findall(r"`(-?\d+)`", g[1].split("###")[0])]
+    need(set(found) == set(titles.values()), "docs/protocol.md: missing command sections: %s"
+         % sorted(set(titles.values()) - set(found)))
+    need(generic, "docs/protocol.md: generic codes not found")
+    e.defn("DOC_CODES", "list (str * list Z)", coq_list(
+        "(%s, %s)" % (coq_str(k), coq_list(coq_Z(c) for c in v)) for k, v in found.items()))
+    e.defn("DOC_GENERIC", "list Z", coq_list(coq_Z(c) for c in generic))
+    with open(os.path.join(env.VERIF, "build", "doc_codes.json"), "w") as f:
+        import json as _json
+        _json.dump({"codes": found, "generic": generic}, f)
+
     return e.text()
 
 
